@@ -38,3 +38,14 @@ Theorem primary_slot_is_that_of_the_view cfg st :
   Reach cfg st -> 0 < N st -> PrimaryIndex st = Quorum.primary (BlockIndex st) (ViewNumber st) (N st).
 Proof. exact (fun HR HN => eq_trans (primary_slot_is_the_view_primary cfg st HR HN) (primary_of_is_quorum_primary st (ViewNumber st))). Qed.
 Print Assumptions primary_slot_is_that_of_the_view.
+
+(* under anti-MEV the same for the pre-block: what is handed to ProcessPreBlock is the node's pre-header, whose timestamp, nonce
+   and transaction list are those of the current view's PrepareRequest in the primary's slot, with the context's index and
+   previous hash *)
+Theorem accepted_preblock_is_the_proposal_of_the_view cfg st ev sc st' tr s h e :
+  Reach cfg st -> step cfg st ev sc = Ok (st', tr) -> In (s, CProcessPreBlock h e) tr ->
+  exists pb r, preheader s = Some pb /\ h = preblock_hash pb /\ slot (PreparationPayloads s) (PrimaryIndex s) = Some r /\
+               p_body r = B0 (BPrepareRequest (pb_ts pb) (pb_nonce pb) (pb_hashes pb)) /\
+               p_view r = ViewNumber s /\ pb_index pb = BlockIndex s /\ pb_prev pb = PrevHash s.
+Proof. exact (accepted_preblock_is_the_primary_proposal cfg st ev sc st' tr s h e). Qed.
+Print Assumptions accepted_preblock_is_the_proposal_of_the_view.
